@@ -215,6 +215,14 @@ QueueSize(m) ==
     /\ Call("QueueSize", m, QSize(m), <<QSize(m)>>, <<>>, <<QSize(m)>>, <<>>)
     /\ UNCHANGED <<ringvars, offered, ghost>>
 
+(* a manager-level call that fails on its arguments (NULL burst array passed to IMB_GET_NEXT_BURST,      *)
+(* IMB_FLUSH_BURST, IMB_SUBMIT_BURST, IMB_SUBMIT_CIPHER_BURST ...): hands nothing out or back, leaves its  *)
+(* error code behind and changes nothing else - in particular not the slot IMB_GET_NEXT_JOB offered     *)
+BadCall(m, code) ==
+    /\ SetErr(m, code)
+    /\ Call("BadCall", m, QSize(m), <<>>, <<>>, <<>>, <<>>)
+    /\ UNCHANGED <<ringvars, offered, ghost>>
+
 -----------------------------------------------------------------------------
 (* asynchronous burst API *)
 
@@ -351,6 +359,7 @@ Next ==
         \/ \E D \in SUBSET ProcIds(m) : FlushJob(m, D)
         \/ GetCompletedJob(m)
         \/ QueueSize(m)
+        \/ BadCall(m, 2048)
         \/ \E n \in 0 .. MaxBurst + 1 : GetNextBurst(m, n)
         \/ \E k \in 0 .. Len(offered[m]), chk \in BOOLEAN, bad \in 0 .. Len(offered[m]),
               D \in SUBSET (ProcIds(m) \cup { nextId[m] + i : i \in 0 .. Len(offered[m]) }) :
